@@ -1,0 +1,74 @@
+//go:build verif
+
+package semap
+
+// Contracts for govc (contract-based deductive verification, see /verif/DESIGN.md).
+// Comments only; compiled only with the build tag `verif`.
+
+//@ arith int
+//@ property C01
+//@ assumption semap: no channel of this package is ever sent on (syntactic: the package has no send statement), so a receive from a waiter's ready channel or from ctx.Done() returns only after the channel was closed
+//
+// ghost: the map and the key a Weighted was created for (set when SemMap.acquire creates it)
+//@ ghostfield Weighted.gmap *SemMap
+//@ ghostfield Weighted.gkey interface{}
+//
+//@ pure wq(w *Weighted) *list.List = addrof(w.waiters)
+//@ pure queued(w *Weighted, e *list.Element) bool = wq(w).lmem[e]
+//@ pure isw(e *list.Element) bool = tag(e.Value) == tagof(waiter)
+//@ pure wn(e *list.Element) int = waiter(e.Value).n
+//@ pure isfront(w *Weighted, e *list.Element) bool = queued(w, e) && forall x *list.Element :: { wq(w).lmem[x] } queued(w, x) ==> e.lrk <= x.lrk
+// a queued waiter has a legal weight and an open ready channel
+//@ pure wok(w *Weighted, e *list.Element) bool = isw(e) && 1 <= wn(e) && wn(e) <= w.size && waiter(e.Value).ready != nil && !chanclosed(waiter(e.Value).ready)
+//@ pure winv(w *Weighted) bool = w != nil && w.size >= 1 && 0 <= w.cur && w.cur <= w.size && lwf(wq(w)) && (forall e *list.Element :: { wq(w).lmem[e] } queued(w, e) ==> wok(w, e)) && (forall e1 *list.Element, e2 *list.Element :: { wq(w).lmem[e1], wq(w).lmem[e2] } queued(w, e1) && queued(w, e2) && e1 != e2 ==> waiter(e1.Value).ready != waiter(e2.Value).ready)
+// FIFO hand-off: the head of the queue does not fit (otherwise it would have been admitted)
+//@ pure headblocked(w *Weighted) bool = forall e *list.Element :: { wq(w).lmem[e] } isfront(w, e) ==> w.size - w.cur < wn(e)
+//
+// total weight accounted for: held (cur) plus queued
+//@ opaque WSUM(mem [0]bool, val [0]interface{}) int
+//@ pure total(w *Weighted) int = w.cur + WSUM(wq(w).lmem, fieldmap(list.Element.Value))
+//@ lemma wsum_empty(mem [0]bool, val [0]interface{})
+//@   trusted finite-sum algebra: WSUM(mem,val) is the sum of waiter(val[e]).n over the finite set mem; the empty sum is 0
+//@   auto WSUM(mem, val)
+//@   ensures (forall e *list.Element :: { mem[e] } !mem[e]) ==> WSUM(mem, val) == 0
+//@ lemma wsum_remove(mem [0]bool, val [0]interface{}, e *list.Element)
+//@   trusted finite-sum algebra: removing a member subtracts its term
+//@   auto WSUM(store(mem, e, false), val)
+//@   ensures mem[e] ==> WSUM(store(mem, e, false), val) == WSUM(mem, val) - waiter(val[e]).n
+//@ lemma wsum_insert(mem [0]bool, val [0]interface{}, val2 [0]interface{}, e *list.Element)
+//@   trusted finite-sum algebra: adding a new member adds its term (the other members' terms being unchanged)
+//@   auto WSUM(store(mem, e, true), val2), WSUM(mem, val)
+//@   ensures !mem[e] && (forall x *list.Element :: { val2[x] } x != e ==> val2[x] == val[x]) ==> WSUM(store(mem, e, true), val2) == WSUM(mem, val) + waiter(val2[e]).n
+//
+//@ func newWeighted
+//@   requires n >= 1
+//@   ensures winv(result) && isfresh(result) && result.size == n && result.cur == 0 && wq(result).lcnt == 0 && total(result) == 0
+//@   modifies region($alloc)
+//
+//@ func Weighted.notifyWaiters
+//@   requires winv(s)
+//@   ensures #inv winv(s) && headblocked(s)
+//@   ensures #empty result <==> wq(s).lcnt == 0
+//@   ensures #nonew forall e *list.Element :: { wq(s).lmem[e] } queued(s, e) ==> old(queued(s, e))
+//@   ensures #fifo forall e *list.Element, x *list.Element :: { old(wq(s).lmem[e]), wq(s).lmem[x] } old(queued(s, e)) && !queued(s, e) && queued(s, x) ==> e.lrk < x.lrk
+//@   ensures #closed forall e *list.Element :: { old(wq(s).lmem[e]) } old(queued(s, e)) && !queued(s, e) ==> chanclosed(waiter(e.Value).ready)
+//@   ensures #conserved total(s) == old(total(s)) && s.cur >= old(s.cur)
+//@   modifies s.cur, wq(s).lmem, wq(s).lcnt, region($chanclosed)
+//@   loop 1
+//@     invariant #inv winv(s) && s.cur >= old(s.cur)
+//@     invariant #nonew forall e *list.Element :: { wq(s).lmem[e] } queued(s, e) ==> old(queued(s, e))
+//@     invariant #fifo forall e *list.Element, x *list.Element :: { old(wq(s).lmem[e]), wq(s).lmem[x] } old(queued(s, e)) && !queued(s, e) && queued(s, x) ==> e.lrk < x.lrk
+//@     invariant #closed forall e *list.Element :: { old(wq(s).lmem[e]) } old(queued(s, e)) && !queued(s, e) ==> chanclosed(waiter(e.Value).ready)
+//@     invariant #conserved total(s) == old(total(s))
+//
+//@ func Weighted.release
+//@   requires winv(s) && n >= 1
+//@   maypanic
+//@   ensures #held old(s.cur) >= n
+//@   ensures #inv winv(s) && headblocked(s)
+//@   ensures #idle result <==> (s.cur == 0 && wq(s).lcnt == 0)
+//@   ensures #conserved total(s) == old(total(s)) - n
+//@   ensures #nonew forall e *list.Element :: { wq(s).lmem[e] } queued(s, e) ==> old(queued(s, e))
+//@   ensures #closed forall e *list.Element :: { old(wq(s).lmem[e]) } old(queued(s, e)) && !queued(s, e) ==> chanclosed(waiter(e.Value).ready)
+//@   ensures_panic old(s.cur) < n
+//@   modifies s.cur, wq(s).lmem, wq(s).lcnt, region($chanclosed)
